@@ -370,9 +370,16 @@ def gen_history(rng, maxlen):
             how = MUT_KINDS[int(rng.integers(0, len(MUT_KINDS)))]
             if how == "param_list" and nparam >= 5:
                 continue
-            if how == "derived_param_list" and nder >= 2:
+            if how == "derived_param_list" and nder >= 2 and not derived:
+                continue
+            if how == "derived_param_list" and nder >= 2 and rng.random() < 0.5:
                 continue
             op = gen_mut(rng, how, usable, nparam, nder)
+            if how == "derived_param_list" and derived and rng.random() < 0.4:
+                # declared again under a name already in use: the new definition replaces the old one everywhere
+                op["name"] = derived[int(rng.integers(0, len(derived)))]
+                h["ops"].append(op)
+                continue
             h["ops"].append(op)
             if how == "param_list": nparam += 1
             if how == "derived_param_list":
@@ -430,6 +437,14 @@ def targeted():
                     tr=[dict(tt="T", o="I", d="R", mag=1)]), dict(op="eval", e=e), dict(op="eval", e="ode"), dict(op="eval", e=e),
                     dict(op="set", form="dict", items=[[0, 1.0]]), dict(op="eval", e=e), dict(op="eval", e="ode")]
         out.append(h)
+    # a derived parameter declared again under the same name: every evaluator that was compiled with the old definition
+    for e in ("ode", "jacobian", "eventRateVector", "transitionMean", "grad"):
+        out.append(dict(states=list(STATES), params=["p0", "p1"], x=[2.0, 1.5, 0.75],
+                        base=[dict(op="mut", how="derived_param_list", name="d0", eq=dict(a=2, p="p0")),
+                              dict(op="mut", how="add_event_E", rate=dict(k="mass", p="d0", X="S", Y="I"), tr=[dict(tt="T", o="S", d="I", mag=1)])],
+                        ops=[dict(op="set", form="list", vals=[0.5, 0.25]), dict(op="eval", e=e),
+                             dict(op="mut", how="derived_param_list", name="d0", eq=dict(a=3, p="p1", q="p0")), dict(op="eval", e=e),
+                             dict(op="eval", e="ode")]))
     # a magnitude that is a parameter: each evaluator alone, evaluated, parameter VALUES changed, evaluated again
     for e in ("vMat", "ode", "transitionMean", "transitionVar", "jacobian"):
         for form in ("list", "dict"):
@@ -481,7 +496,10 @@ def valid(h):
     """every rate only uses parameters that have a value at that moment; names are new; lengths make sense"""
     declared, valued, derived = list(h["params"]), 0, []
     for op in h["base"]:
-        if any(n not in declared[:2] for n in rate_names(op["rate"])):
+        if op["how"] == "derived_param_list":
+            derived.append(op["name"])
+            continue
+        if any(n not in declared[:2] + derived for n in rate_names(op["rate"])):
             return False
     for op in h["ops"]:
         if op["op"] == "mut":
